@@ -165,6 +165,29 @@ func Programs08(tier string) []Program {
 		add(Program{Cfg: cfgBoth, Init: inits[2].init, Threads: [][]string{{pr[0]}, {pr[1]}, {"GC:0"}}})
 		add(Program{Cfg: cfgBoth, Init: inits[2].init, Threads: [][]string{{pr[0]}, {pr[1]}, {"GC:0", "GC:0"}}})
 	}
+	// a log with holes: segment [0] whose tail (1) was deleted, segment [3] rebased by the delete of its
+	// first message (2), full head [4 5]. Reads that start in a hole cross from one segment to the next
+	// inside one call while a rollover, a head delete or a reader delete swaps the segment list.
+	holes := initState{
+		name: "holes", init: []string{"P:0/1/u", "P:1/1/u", "P:0/1/u", "P:1/1/u", "P:0/1/u", "P:1/1/u", "D:1", "D:2"}, next: 6,
+		calls: []string{"Publish:1", "Delete:4", "Delete:5", "Delete:0", "GC:0",
+			"Consume:1,40", "Consume:2,40", "Consume:-2,40", "Get:1", "Get:3", "ConsumeByKey:1,1,40", "GetByKey:1", fmt.Sprintf("GetByTime:%d", t1+1)},
+	}
+	if tier == "thorough" {
+		holes.calls = append(holes.calls, "Delete:3", "Consume:1,1", "Get:-2", fmt.Sprintf("GetByTime:%d", t1+2), "Stat")
+	}
+	for i, a := range holes.calls {
+		for _, b := range holes.calls[i:] {
+			if readOnly(a) && readOnly(b) {
+				continue
+			}
+			add(Program{Cfg: cfgBoth, Init: holes.init, Threads: [][]string{{a}, {b}}})
+		}
+	}
+	for _, c := range []string{"Consume:1,40", "Consume:2,40", "Get:1", "ConsumeByKey:1,1,40"} {
+		add(Program{Cfg: cfgBoth, Init: holes.init, Threads: [][]string{{c}, {"Publish:1"}, {"Delete:0"}}})
+		add(Program{Cfg: cfgBoth, Init: holes.init, Threads: [][]string{{c}, {"GC:0"}, {"Delete:4"}}})
+	}
 	// two publishers against a third party (quick leaves multisets out of the generic triples)
 	for _, st := range inits[1:] {
 		for _, c := range []string{"Consume:-2,40", "Consume:2,40", "Delete:1", "Get:-1", "ConsumeByKey:0,-2,40", "NextOffset", "GC:0"} {
